@@ -205,15 +205,9 @@ Proof.
   intros HD H. step_cases H.
   all: try (unfold inv_D in *; cbn; exact HD).
   all: unfold inv_D in *.
-  - upd c SActive; crush.
-  - seo c e; crush.
-  - upd c SClosed; crush.
-  - upd c SDisconnected; crush.
-  - crush.
-  - crush.
-  - crush.
-  - seo c e; crush.
-  - seo c e; crush.
+  all: try (match goal with |- context [set_err_once ?x ?e] => seo x e; crush end; fail).
+  all: try (match goal with |- context [update ?x ?ns] => upd x ns; crush end; fail).
+  all: try (crush; fail).
 Qed.
 
 Lemma inv_D_fresh m : inv_D (fresh m).
@@ -231,9 +225,7 @@ Proof.
   all: unfold inv_A in *.
   all: try (seo c e; crush; fail).
   all: try (crush; fail).
-  - upd c SActive; crush.
-  - upd c SClosed; crush.
-  - upd c SDisconnected; crush.
+  all: match goal with |- context [update ?x ?ns] => upd x ns; crush end.
 Qed.
 
 Lemma inv_A_fresh m : inv_A (fresh m).
